@@ -30,6 +30,7 @@ pub fn def() -> CheckDef {
         exec,
         components: "real code: all nine crates and cipher's front ends, both twins; stub: block cipher (SimCipher/SimCipherEnc) in most runs, AES-128/Magma/Kuznyechik/BelT in the rest (their width is whatever the host CPU gives); no reference model",
         assumptions: &["toy permutation is a bijection (self-tested)", "cipher/inout/hybrid-array crates trusted", "sampling, not proof"],
+        nondet_is_violation: false,
     }
 }
 
